@@ -38,7 +38,8 @@ RTOL_Q = 1e-9                     # abstraction tolerance float -> model integer
 RTOL_REL = 1e-12                  # relations between logged floats (natural runs)
 
 MECH = dict(MSliceExtra=False, MClipInit=False, MNeverRaise=False, MMulFirst=False, MTestPrev=False,
-            MReturnUnconverged=False, MWarmupRule=False, MEntryPerIteration=False)
+            MReturnUnconverged=False, MWarmupRule=False, MEntryPerIteration=False, MGlobalStepCount=False,
+            MResetTentative=False)
 
 INV_C12 = ["TypeOK", "DtPositive", "DtAtMostMax", "NonAdaptiveDtIsInit", "RetriesBounded", "ReturnedDtIsAnswered"]
 PROP_C12 = ["FirstAttemptUsesTentative", "DtKeptAcrossScreeningIterations", "RetryMultiplies",
@@ -49,9 +50,9 @@ PROP_C13 = ["NonConvergenceRaises", "ConvergedStops", "PolyakUpdate", "ErrorIsRe
 OBS_C12 = ["ObsDtPositive", "ObsDtAtMostMax", "ObsNonAdaptiveDtIsInit"]
 OBS_C13 = ["ObsNoScreeningInducedZero", "ObsFrameSelfConsistent"]
 
-SET_KEYS = ["Adaptives", "Screenings", "Windows", "RetrySet", "MulExps", "InitEs", "MaxE4s", "Deltas", "MaxIters",
+SET_KEYS = ["Thermals", "Adaptives", "Screenings", "Windows", "RetrySet", "MulExps", "InitEs", "MaxE4s", "Deltas", "MaxIters",
             "TolExps", "AlphaExps", "BetaQs", "Kicks"]
-DEFAULT_BOUNDS = dict(Adaptives=[True], Screenings=[False], Windows=[1], RetrySet=[1], MulExps=[1], InitEs=[4],
+DEFAULT_BOUNDS = dict(Thermals=[False], MaxThermal=3, Adaptives=[True], Screenings=[False], Windows=[1], RetrySet=[1], MulExps=[1], InitEs=[4],
                       MaxE4s=[5], Deltas=[0, 1024], MaxIters=[2], TolExps=[7], AlphaExps=[0], BetaQs=[4], Kicks=[1],
                       MaxSteps=4, MaxRefusals=2)
 
@@ -64,7 +65,7 @@ def constants_text(bounds, mech=None):
     b = dict(DEFAULT_BOUNDS, **bounds)
     m = dict(MECH, **(mech or {}))
     lines = ["CONSTANTS"] + [f" {k} = {tla_set(b[k])}" for k in SET_KEYS]
-    lines += [f" MaxSteps = {b['MaxSteps']}", f" MaxRefusals = {b['MaxRefusals']}"]
+    lines += [f" MaxSteps = {b['MaxSteps']}", f" MaxThermal = {b['MaxThermal']}", f" MaxRefusals = {b['MaxRefusals']}"]
     lines += [f" {k} = {'TRUE' if v else 'FALSE'}" for k, v in m.items()]
     return "\n".join(lines) + "\n"
 
@@ -76,7 +77,7 @@ def model_cfg(bounds, mech=None, invariants=(), properties=(), spec="Spec", view
 
 
 def trace_cfg(invariants=(), properties=()):
-    b = dict(MaxSteps=1000000, MaxRefusals=1000000)
+    b = dict(MaxSteps=1000000, MaxThermal=1000000, MaxRefusals=1000000)
     return model_cfg(b, None, ["Accepted"] + list(invariants), properties, spec="TSpec", view=False)
 
 
@@ -244,11 +245,22 @@ def replay_script(tdgl, a, tmp=None):
         names = {"dt": 1}
         if c["screening"]:
             names["screening_iterations"] = 1
-        rs = RunningState(names, nsteps + 2)
+        rs = RunningState(names, nsteps + 70)
         vals = dict(psi=solver.psi_init, mu=solver.mu_init, supercurrent=np.zeros(ne), normal_current=np.zeros(ne),
                     induced_vector_potential=np.zeros((ne, 2)))
         t, dt = 0.0, opts.dt_init
-        for n in range(nsteps):
+        n = 0
+        stage1 = bool(c.get("thermal"))          # thermalisation stage first: driven exactly as Runner.run does
+        while True:
+            if stage1 and cur["i"] < len(hist) and hist[cur["i"]]["t"] == "S":
+                # Runner: `Thermalizing` ends; running_state.clear(); time = 0; state["step"] = 0; the previous dt
+                # (Runner.dt) and the values carry over; the solver object persists
+                cur["i"] += 1
+                ev.append({"ev": "restart"})
+                stage1, n, t = False, 0, 0.0
+                rs.clear()
+            if (not stage1 and n >= nsteps) or cur["over"] > 6 or n > 60:
+                break
             ev.append({"ev": "begin", "step": n, "tent": q_fixed(solver.tentative_dt, FT, True)})
             cur["in_update"] = True
             try:
@@ -266,6 +278,7 @@ def replay_script(tdgl, a, tmp=None):
             t += res.dt
             dt = res.dt
             rs.step += 1
+            n += 1
     finally:
         P.restore()
     return {"mode": "exact", "cfg": c, "ev": ev, "overrun": cur["over"], "unused": len(hist) - cur["i"],
@@ -280,7 +293,7 @@ def describe_script(s):
     c = s["cfg"]
     h = "".join("R" if e["t"] == "R" else (f"A{e['d']}" if e["t"] == "A" else f"K{e['k'][0]},{e['k'][1]}") + " "
                 for e in s["hist"]).strip()
-    return (f"adaptive={c['adaptive']} screening={c['screening']} window={c['window']} retries={c['retries']} "
+    return (f"thermal={c.get('thermal', False)} adaptive={c['adaptive']} screening={c['screening']} window={c['window']} retries={c['retries']} "
             f"mult=2^-{c['mulexp']} dt_init=2^-{c['inite']} dt_max=2^-{c['maxe']} maxiter={c['maxiter']} "
             f"tol=2^-{c['tolexp']} alpha=2^-{c['alphaexp']} beta={c['betaq']}/4 script=[{h}]")
 
@@ -319,7 +332,7 @@ def natural_run(tdgl, p, tmp=None):
     alpha, beta = p.get("alpha", 0.1), p.get("beta", 0.5)
     maxiter = p.get("maxiter", 1000)
     opts = tdgl.SolverOptions(
-        solve_time=p["solve_time"], dt_init=dt_init, dt_max=dt_max_opt, adaptive=adaptive, adaptive_window=window,
+        solve_time=p["solve_time"], skip_time=p.get("skip_time", 0.0), dt_init=dt_init, dt_max=dt_max_opt, adaptive=adaptive, adaptive_window=window,
         max_solve_retries=p.get("retries", 10), adaptive_time_step_multiplier=mult, include_screening=screening,
         max_iterations_per_step=maxiter, screening_tolerance=tol, screening_step_size=alpha,
         screening_step_drag=beta, save_every=p.get("k", 5), progress_interval=10 ** 9, pause_on_interrupt=False,
@@ -403,7 +416,15 @@ def natural_run(tdgl, p, tmp=None):
         st["retries_now"] = 0
         st["A_latest"] = np.array(kw["induced_vector_potential"], copy=True)
         step = int(state["step"])
-        ev.append({"ev": "begin", "step": step, "tent": st["tent0"]})
+        if step == 0 and st["n_updates"] > 0:
+            ev.append({"ev": "restart"})          # Runner restarted the step index: thermalisation is over
+            st["restarts"] = st.get("restarts", 0) + 1
+            st["updates_before_restart"] = st["n_updates"]
+            st["refusals_before_restart"] = sum(1 for e in ev if e["ev"] == "attempt" and e["refused"])
+            st["tent_at_restart"] = st["tent0"]
+        prev = st.get("prev")
+        carried = prev is not None and all(np.array_equal(np.asarray(kw[k]), prev[k]) for k in prev)
+        ev.append({"ev": "begin", "step": step, "tent": st["tent0"], "rels": ["carried"] if carried else []})
         try:
             res = orig_update(self, state, running_state, dt, **kw)
         except KeyboardInterrupt:
@@ -438,6 +459,8 @@ def natural_run(tdgl, p, tmp=None):
              "azero": bool(not np.any(np.asarray(res.A_induced)))}
         ev.append(e)
         st["n_updates"] += 1
+        st["prev"] = {"psi": np.array(res.psi, copy=True), "mu": np.array(res.mu, copy=True),
+                      "induced_vector_potential": np.array(res.A_induced, copy=True)}
         st["solver"] = None
         st["the_solver"] = self
         return res
@@ -483,10 +506,13 @@ def natural_run(tdgl, p, tmp=None):
     import shutil
 
     shutil.rmtree(sandbox, ignore_errors=True)
-    cfg = dict(adaptive=adaptive, screening=screening, window=window, retries=p.get("retries", 10), mulexp=1, inite=4,
+    cfg = dict(thermal=bool(p.get("skip_time", 0.0) > 0), adaptive=adaptive, screening=screening, window=window, retries=p.get("retries", 10), mulexp=1, inite=4,
                maxe=0, maxiter=maxiter, tolexp=7, alphaexp=0, betaq=2)
     return {"mode": "flags", "cfg": cfg, "ev": ev, "params": p, "raised": raised,
-            "stats": {"updates": st["n_updates"], "max_retries_in_a_step": st["max_retries_seen"],
+            "stats": {"updates": st["n_updates"], "restarts": st.get("restarts", 0),
+                      "updates_before_restart": st.get("updates_before_restart", 0),
+                      "refusals_before_restart": st.get("refusals_before_restart", 0),
+                      "tent_at_restart": st.get("tent_at_restart"), "max_retries_in_a_step": st["max_retries_seen"],
                       "max_screening_iterations": st["max_iters_seen"], "frames": len(frames),
                       "attempts": sum(1 for e in ev if e["ev"] == "attempt"),
                       "refusals": sum(1 for e in ev if e["ev"] == "attempt" and e["refused"]),
